@@ -1,2 +1,376 @@
-use crate::harness::Gen;
-pub fn gens() -> Vec<Gen> { vec![] }
+//! C10: Compact and JSON serializations are interchangeable.
+
+use crate::gen_c02;
+use crate::gen_c03;
+use crate::harness::{fail, Gen, Verdict};
+use crate::oracle::Strategy;
+use crate::pipeline::{honest_kb_claims, honest_presentation, make_kb, select_all, Cfg};
+use crate::rng::Rng;
+use crate::sut::{self, Kb, Out};
+use crate::util::{jstr, short, Parts, FAR_EXP, J};
+use serde_json::{json, Map};
+use std::collections::HashSet;
+
+pub fn gens() -> Vec<Gen> {
+    vec![
+        Gen { name: "c10.disclosure_lists", prop: "C10", tags: &["parse", "empty", "disclosure", "compact", "src/lib.rs"], cases: cases_lists, check },
+        Gen { name: "c10.holder", prop: "C10", tags: &["holder", "create_presentation", "kb_jwt", "src/holder.rs"], cases: cases_holder, check },
+        Gen { name: "c10.kb", prop: "C10", tags: &["kb", "sd_hash", "verify_key_binding", "src/verifier.rs"], cases: cases_kb, check },
+        Gen { name: "c10.tampered_jwt", prop: "C10", tags: &["tamper", "jwt"], cases: cases_tampered, check },
+    ]
+}
+
+fn cases_lists(rng: &mut Rng, sink: &mut dyn FnMut(J) -> bool) {
+    // disclosure-list variants (incl. empty-string entries) on a genuine credential
+    let n_g = 8;
+    let mut lists: Vec<Vec<J>> = Vec::new();
+    let g = |i: usize| json!({ "g": i });
+    let all: Vec<J> = (0..n_g).map(g).collect();
+    lists.push(all.clone());
+    lists.push(vec![]);
+    for pos in 0..=n_g {
+        for extra in [json!({"raw": ""}), json!({"raw": "!!"}), json!({"raw": "e30"}), json!({"forge3": ["role", "admin"]}), json!({"g": 0}), json!({"pad": 0, "n": 1})] {
+            let mut l = all.clone();
+            l.insert(pos, extra);
+            lists.push(l);
+        }
+    }
+    lists.push(vec![json!({"raw": ""})]);
+    lists.push(vec![json!({"raw": ""}), json!({"raw": ""})]);
+    lists.push(vec![g(0), json!({"raw": ""}), g(1)]);
+    lists.push(vec![json!({"raw": ""}), g(0)]);
+    lists.push(vec![g(0), json!({"raw": ""})]);
+    for _ in 0..200 {
+        let mut l = Vec::new();
+        for _ in 0..rng.below(6) {
+            l.push(match rng.below(6) {
+                0 => json!({"raw": ""}),
+                1 => json!({"raw": "W10"}),
+                2 => json!({"forge2": "x"}),
+                _ => g(rng.below(n_g)),
+            });
+        }
+        lists.push(l);
+    }
+    let mut n = 0;
+    for l in lists {
+        for with_kb in [false, true] {
+            n += 1;
+            let mut cfg = gen_c03::credential(0);
+            cfg.holder = if with_kb { Some("es256".into()) } else { None };
+            cfg.alg = ["ES256", "EdDSA", "HS256"][n % 3].into();
+            let mut c = cfg.to_json();
+            c["kind"] = json!("list");
+            c["list"] = J::Array(l.clone());
+            if !sink(c) {
+                return;
+            }
+        }
+    }
+}
+
+fn cases_tampered(_rng: &mut Rng, sink: &mut dyn FnMut(J) -> bool) {
+    let mut muts = vec![json!({"kind": "none"})];
+    for part in ["header", "payload", "signature"] {
+        for n in [1, 2] {
+            muts.push(json!({"kind": "append", "part": part, "text": "=".repeat(n)}));
+        }
+        muts.push(json!({"kind": "swap", "part": part}));
+        for pos in [0, 1, 5, 20, 40] {
+            muts.push(json!({"kind": "subst", "part": part, "pos": pos, "how": "next"}));
+            muts.push(json!({"kind": "delete", "part": part, "pos": pos}));
+            muts.push(json!({"kind": "insert", "part": part, "pos": pos, "ch": "A"}));
+        }
+    }
+    muts.push(json!({"kind": "strip_sig"}));
+    muts.push(json!({"kind": "alg_none", "alg": "none", "keep_sig": false}));
+    muts.push(json!({"kind": "alg_rewrite", "alg": "HS256"}));
+    muts.push(json!({"kind": "hs_confusion", "secret": "raw", "alg": "HS256"}));
+    muts.push(json!({"kind": "hs_confusion", "secret": "pem", "alg": "HS256"}));
+    muts.push(json!({"kind": "resolver_key", "key": "ES256-other"}));
+    muts.push(json!({"kind": "resigned", "key": "ES256-other"}));
+    muts.push(json!({"kind": "payload_edit", "what": "claim"}));
+    for (alg, holder) in [("ES256", None), ("EdDSA", Some("es256")), ("HS256", None), ("ES256", Some("eddsa"))] {
+        for m in &muts {
+            let cfg = Cfg { claims: gen_c02::base_claims(0), strategy: Strategy::AllLevels, format: "compact".into(), alg: alg.into(), decoys: false, holder: holder.map(String::from) };
+            let mut c = cfg.to_json();
+            c["kind"] = json!("tampered");
+            c["mutation"] = m.clone();
+            if !sink(c) {
+                return;
+            }
+        }
+    }
+}
+
+fn cases_kb(_rng: &mut Rng, sink: &mut dyn FnMut(J) -> bool) {
+    let attacks = ["none", "kb_removed", "kb_garbage", "kb_empty", "one_fewer", "one_more", "reordered", "other_aud", "other_nonce", "no_sd_hash", "wrong_sd_hash", "wrong_typ", "resigned", "only_aud", "no_kb_requested"];
+    let mut n = 0;
+    for (alg, holder) in [("ES256", "es256"), ("EdDSA", "eddsa"), ("HS256", "es256")] {
+        for decoys in [false, true] {
+            for a in attacks {
+                n += 1;
+                let mut cfg = gen_c03::credential(n * 3);
+                cfg.alg = alg.into();
+                cfg.holder = Some(holder.into());
+                cfg.decoys = decoys;
+                let mut c = cfg.to_json();
+                c["kind"] = json!("kb");
+                c["attack"] = json!(a);
+                if !sink(c) {
+                    return;
+                }
+            }
+        }
+    }
+}
+
+fn cases_holder(rng: &mut Rng, sink: &mut dyn FnMut(J) -> bool) {
+    let claims = json!({"iss": "i", "exp": FAR_EXP, "a": "x", "b": {"c": 1, "d": 2}, "e": ["f", "g"], "\u{1F600}": [[1], {"k": null}]});
+    let sels = [
+        json!({"a": true, "b": {"c": true}, "e": [true, true], "\u{1F600}": [[true], {"k": true}]}),
+        json!({"a": true}),
+        json!({}),
+        json!({"b": {"d": true}, "e": [false, true]}),
+        json!({"zzz": true}),
+    ];
+    let mut n = 0;
+    for s in [Strategy::AllLevels, Strategy::TopLevel, Strategy::Custom(vec!["$.b.c".into(), "$.e[1]".into()])] {
+        for first in &sels {
+            for second in &sels {
+                for (kb1, kb2) in [(true, false), (false, false), (true, true), (false, true)] {
+                    for issue_format in ["compact", "json"] {
+                        n += 1;
+                        let mut cfg = Cfg::simple(claims.clone(), s.clone()).variant(n);
+                        cfg.format = issue_format.into();
+                        cfg.holder = Some(if n % 2 == 0 { "es256" } else { "eddsa" }.into());
+                        let mut c = cfg.to_json();
+                        c["kind"] = json!("holder");
+                        c["calls"] = json!([{"selection": first, "kb": kb1}, {"selection": second, "kb": kb2}]);
+                        if !sink(c) {
+                            return;
+                        }
+                    }
+                }
+            }
+        }
+    }
+    // longer random sequences
+    loop {
+        n += 1;
+        let mut cfg = Cfg::simple(claims.clone(), Strategy::AllLevels).variant(n);
+        cfg.holder = Some("es256".into());
+        let calls: Vec<J> = (0..2 + rng.below(3)).map(|_| json!({"selection": rng.pick(&sels), "kb": rng.coin()})).collect();
+        let mut c = cfg.to_json();
+        c["kind"] = json!("holder");
+        c["calls"] = J::Array(calls);
+        if !sink(c) {
+            return;
+        }
+        if n > 3000 {
+            return;
+        }
+    }
+}
+
+/// Verify the same (jwt, disclosures, kb) triple in every serialization; all verdicts must agree.
+fn compare_formats(p: &Parts, key: &J, aud: Option<&str>, nonce: Option<&str>) -> Verdict {
+    // representable identically in both formats?
+    if p.jwt.contains('~') || p.disclosures.iter().any(|d| d.contains('~')) || p.kb.as_deref().map(|k| k.contains('~')).unwrap_or(false) {
+        return Verdict::Trivial;
+    }
+    if p.jwt.matches('.').count() != 2 {
+        return Verdict::Trivial;
+    }
+    let mut p = p.clone();
+    if p.kb.as_deref() == Some("") {
+        p.kb = None;
+    }
+    let variants: Vec<(&str, &str, String)> = vec![
+        ("compact", "compact", p.to_compact()),
+        ("json", "json (kb_jwt null when absent)", p.to_json_styled(true, false)),
+        ("json", "json (kb_jwt member omitted when absent)", p.to_json_styled(false, false)),
+        ("json", "json with an extra unknown member", p.to_json_styled(true, true)),
+    ];
+    let mut results: Vec<(String, Out<J>)> = Vec::new();
+    for (format, label, text) in &variants {
+        results.push((label.to_string(), sut::verify_with(text, key, aud, nonce, format)));
+    }
+    for (label, r) in &results {
+        if let Out::Panic(m) = r {
+            return fail(format!("{label}: PANIC: {m}"), "same verdict in both serializations");
+        }
+    }
+    let (l0, r0) = &results[0];
+    for (label, r) in &results[1..] {
+        let same = match (r0, r) {
+            (Out::Ok(a), Out::Ok(b)) => a == b,
+            (Out::Err(_), Out::Err(_)) => true,
+            _ => false,
+        };
+        if !same {
+            return fail(
+                format!("{l0}: {} | {label}: {} (jwt = {}, {} disclosures {:?}, kb {})", r0.show(), r.show(), short(&p.jwt, 60), p.disclosures.len(), p.disclosures.iter().map(|d| short(d, 12)).collect::<Vec<_>>(), p.kb.is_some()),
+                "the same accept/reject decision and the same claims in every serialization",
+            );
+        }
+    }
+    Verdict::Pass
+}
+
+pub fn check(case: &J) -> Verdict {
+    let Some(cfg) = Cfg::from_json(case) else { return Verdict::Trivial };
+    let own_key = J::String(cfg.alg.clone());
+    let kb = cfg.kb();
+    let (aud, nonce) = (kb.as_ref().map(|k| k.aud.clone()), kb.as_ref().map(|k| k.nonce.clone()));
+    match case["kind"].as_str().unwrap_or("") {
+        "list" => {
+            let Some(list) = case["list"].as_array() else { return Verdict::Trivial };
+            let (_, issued) = match cfg.issue_parts() {
+                Ok(x) => x,
+                Err(v) => return v,
+            };
+            let Some(l) = list.iter().map(|i| gen_c03::resolve_item(i, &issued.disclosures, &[])).collect::<Option<Vec<String>>>() else {
+                return Verdict::Trivial;
+            };
+            let kbs = kb.as_ref().and_then(|k| make_kb(&crate::keys::holder_enc(&k.holder), crate::keys::holder_alg(&k.holder), Some("kb+jwt"), &honest_kb_claims(k, &issued.jwt, &l)));
+            let p = Parts { jwt: issued.jwt.clone(), disclosures: l, kb: kbs };
+            compare_formats(&p, &own_key, aud.as_deref(), nonce.as_deref())
+        }
+        "tampered" => {
+            let sel = select_all(&cfg.claims);
+            let (_, pres) = match honest_presentation(&cfg, &sel) {
+                Ok(x) => x,
+                Err(v) => return v,
+            };
+            let Some(p) = Parts::parse(&pres, &cfg.format) else { return Verdict::Trivial };
+            if case["mutation"]["kind"] == "none" {
+                return compare_formats(&p, &own_key, aud.as_deref(), nonce.as_deref());
+            }
+            let Some((t, key)) = gen_c02::mutate(&cfg, &p, &case["mutation"]) else { return Verdict::Trivial };
+            compare_formats(&t, &key, aud.as_deref(), nonce.as_deref())
+        }
+        "kb" => {
+            let Some(k) = kb.clone() else { return Verdict::Trivial };
+            let sel = select_all(&cfg.claims);
+            let (_, pres) = match honest_presentation(&cfg, &sel) {
+                Ok(x) => x,
+                Err(v) => return v,
+            };
+            let Some(p) = Parts::parse(&pres, &cfg.format) else { return Verdict::Trivial };
+            let hk = crate::keys::holder_enc(&k.holder);
+            let ha = crate::keys::holder_alg(&k.holder);
+            let honest = honest_kb_claims(&k, &p.jwt, &p.disclosures);
+            let mut q = p.clone();
+            let (mut a, mut n) = (Some(k.aud.clone()), Some(k.nonce.clone()));
+            match case["attack"].as_str().unwrap_or("") {
+                "none" => {}
+                "kb_removed" => q.kb = None,
+                "kb_garbage" => q.kb = Some("a.b.c".into()),
+                "kb_empty" => q.kb = Some(String::new()),
+                "one_fewer" => {
+                    q.disclosures.remove(0);
+                }
+                "one_more" => {
+                    q.disclosures.push(crate::util::make_disclosure(&json!(["c2FsdHNhbHRzYWx0c2FsdA", "extra", 1])));
+                }
+                "reordered" => {
+                    let l = q.disclosures.len();
+                    if l < 2 {
+                        return Verdict::Trivial;
+                    }
+                    q.disclosures.swap(0, l - 1);
+                }
+                "other_aud" => a = Some("https://other.example".into()),
+                "other_nonce" => n = Some("other".into()),
+                "no_sd_hash" => {
+                    let mut c = honest.clone();
+                    c.as_object_mut().unwrap().shift_remove("sd_hash");
+                    q.kb = make_kb(&hk, ha, Some("kb+jwt"), &c);
+                }
+                "wrong_sd_hash" => {
+                    let mut c = honest.clone();
+                    c["sd_hash"] = json!(crate::pipeline::sd_hash(&p.jwt, &p.disclosures[1..]));
+                    q.kb = make_kb(&hk, ha, Some("kb+jwt"), &c);
+                }
+                "wrong_typ" => q.kb = make_kb(&hk, ha, Some("JWT"), &honest),
+                "resigned" => {
+                    let o = if k.holder == "es256" { "es256-b" } else { "eddsa-b" };
+                    q.kb = make_kb(&crate::keys::holder_enc(o), crate::keys::holder_alg(o), Some("kb+jwt"), &honest);
+                }
+                "only_aud" => n = None,
+                "no_kb_requested" => {
+                    a = None;
+                    n = None;
+                }
+                _ => return Verdict::Trivial,
+            }
+            compare_formats(&q, &own_key, a.as_deref(), n.as_deref())
+        }
+        "holder" => {
+            let Some(calls) = case["calls"].as_array() else { return Verdict::Trivial };
+            let (_, issued) = match cfg.issue_parts() {
+                Ok(x) => x,
+                Err(v) => return v,
+            };
+            let texts = [("compact", issued.to_compact()), ("json", issued.to_json())];
+            let mut holders = Vec::new();
+            for (f, t) in &texts {
+                match sut::holder_new(t, f) {
+                    Out::Ok(h) => holders.push((*f, h)),
+                    o => return fail(format!("SDJWTHolder::new({f} form of an issued SD-JWT) -> {}", o.brief()), "Ok in both forms"),
+                }
+            }
+            let k = kb.unwrap_or_else(|| Kb::new("es256"));
+            for (i, call) in calls.iter().enumerate() {
+                let sel: Map<String, J> = call["selection"].as_object().cloned().unwrap_or_default();
+                let use_kb = call["kb"].as_bool().unwrap_or(false);
+                let mut outs: Vec<(&str, Out<String>)> = Vec::new();
+                for (f, h) in holders.iter_mut() {
+                    outs.push((*f, sut::present(h, &sel, if use_kb { Some(&k) } else { None })));
+                }
+                for (f, o) in &outs {
+                    if let Out::Panic(m) = o {
+                        return fail(format!("call {i} on the {f} holder: PANIC: {m}"), "same behaviour in both forms");
+                    }
+                }
+                match (&outs[0].1, &outs[1].1) {
+                    (Out::Err(_), Out::Err(_)) => {}
+                    (Out::Ok(c), Out::Ok(j)) => {
+                        let (Some(pc), Some(pj)) = (Parts::parse(c, "compact"), Parts::parse(j, "json")) else {
+                            return fail("a presentation does not parse", "well-formed presentations");
+                        };
+                        let sc: HashSet<&String> = pc.disclosures.iter().collect();
+                        let sj: HashSet<&String> = pj.disclosures.iter().collect();
+                        if pc.jwt != pj.jwt || sc != sj || pc.disclosures.len() != pj.disclosures.len() || pc.kb.is_some() != pj.kb.is_some() {
+                            return fail(
+                                format!(
+                                    "call {i} (selection {}, kb requested: {use_kb}): compact holder -> {} disclosures, kb {}; JSON holder -> {} disclosures, kb {}",
+                                    jstr(&call["selection"]), pc.disclosures.len(), pc.kb.is_some(), pj.disclosures.len(), pj.kb.is_some()
+                                ),
+                                "holders built from either form select the same disclosures and carry a KB-JWT in the same cases",
+                            );
+                        }
+                        // and the verifier treats both alike
+                        let (a, n) = if use_kb { (Some(k.aud.as_str()), Some(k.nonce.as_str())) } else { (None, None) };
+                        let vc = sut::verify_with(c, &own_key, a, n, "compact");
+                        let vj = sut::verify_with(j, &own_key, a, n, "json");
+                        let same = match (&vc, &vj) {
+                            (Out::Ok(x), Out::Ok(y)) => x == y,
+                            (Out::Err(_), Out::Err(_)) => true,
+                            _ => false,
+                        };
+                        if !same {
+                            return fail(format!("call {i}: verifier on compact presentation -> {}; on JSON presentation -> {}", vc.show(), vj.show()), "same verdict and claims");
+                        }
+                    }
+                    (a, b) => {
+                        return fail(format!("call {i} (selection {}): compact holder -> {}; JSON holder -> {}", jstr(&call["selection"]), a.brief(), b.brief()), "same outcome from holders built from either form");
+                    }
+                }
+            }
+            Verdict::Pass
+        }
+        _ => Verdict::Trivial,
+    }
+}
